@@ -97,7 +97,7 @@ def _run(tier, seed, replay=None):
             seed //= 100
     hist, ops = (3, 14) if tier == "quick" else (16, 30)
     res = vlib.harness_json(vd, ["c13", "-bin", rec, "-dir", os.path.join(wd, "runs"), "-seed", str(seed), "-histories", str(hist), "-ops", str(ops), "-inproc-bin", inproc,
-                                  "-rsched", "cut-during-monitoring,release-while-disconnected,release-with-executor-gone" if tier == "quick" else
+                                  "-rsched", "cut-during-monitoring,cancel-while-disconnected,release-while-disconnected,release-with-executor-gone" if tier == "quick" else
                                   "cut-during-monitoring,cancel-while-disconnected,cancel-then-restart-submitter,release-while-disconnected,release-with-executor-gone"],
                             wd, timeout=3000, name="vd_c13")
     for viol in res["violations"]:
